@@ -230,7 +230,8 @@ def member_src(d, m, in_variant=False):
     for a in m.foreign: lines.append(a)
     if m.skip and not m.skip_last: lines.append('#[codec(skip)]')
     if m.compact: lines.append('#[codec(compact)]')
-    if m.encoded_as: lines.append('#[codec(encoded_as = "<%s as scale::HasCompact>::Type")]' % src(m.ty))
+    if m.encoded_as == 'custom': lines.append('#[codec(encoded_as = "BigEndian32")]')
+    elif m.encoded_as: lines.append('#[codec(encoded_as = "<%s as scale::HasCompact>::Type")]' % src(m.ty))
     if m.skip and m.skip_last: lines.append('#[codec(skip)]')
     if m.rename is not None: lines.append('#[scale_info(rename = %s)]' % rstr(m.rename))
     vis = '' if in_variant else 'pub '
@@ -399,6 +400,9 @@ def member_values(d, m, inst, base):
             vs.append(('vec![%s]' % base[0], 'S[%s]' % base[1]))
         return vs
     vs = vals(subst(t, inst))
+    if m.encoded_as == 'custom':
+        # a user-defined EncodeAsRef type: the u32 is written as 4 big-endian bytes, described by BigEndian32's own type info
+        return [(e, 'C{_:A[%s]}' % ','.join(str(b) for b in int(tr).to_bytes(4, 'big'))) for e, tr in vs]
     if m.compact or m.encoded_as:
         vs = [(e, 'K(%s)' % tr) for e, tr in vs]
     return vs
@@ -775,10 +779,14 @@ def ov_encoded_as(d):
     k = 0
     for ml in members_lists(d):
         for i, m in enumerate(ml):
-            if m.ty == I('u32') and not m.skip and not m.compact:
+            if m.ty == I('u32') and not m.skip and not m.compact and not m.encoded_as:
                 c = d.clone()
                 members_lists(c)[k][i].encoded_as = True
                 c.overlays.append('codec(encoded_as) on member %d/%d' % (k, i))
+                yield c
+                c = d.clone()
+                members_lists(c)[k][i].encoded_as = 'custom'
+                c.overlays.append('codec(encoded_as = a user-defined EncodeAsRef type) on member %d/%d' % (k, i))
                 yield c
         k += 1
 
